@@ -47,7 +47,7 @@ def _tok(op, entry, fns, n, a=0, b=None, variant="op", K=4, tier="quick", extra=
         defs.append("-DSRC_LEN_MAX=65535")
         bounds["source length<="] = 65535
     U(nm, ["C15", "C01"], entry, ["C15/tok_ops.c"], list(repo), plain=True, lib=(), kind="bounded", tier=tier, defines=defs, bounds=bounds,
-      cbmc_flags=["--unwind", str(K + 6), "--unwinding-assertions"], functions=fns, native={"repo": ["token.c", "char.c", "token_pairs.c", "stack.c"]}, timeout=90, cost=3,
+      cbmc_flags=["--unwind", str(K + 6), "--unwinding-assertions"], functions=fns, native={"repo": ["token.c", "char.c", "token_pairs.c", "stack.c"]}, timeout=300, cost=3,
       callees={"token_new/token_copy/token_free/token_tree_free": "body (malloc/free: CBMC built-in; -DDISABLE_OBJECT_POOL)"},
       assumptions=[NOFAIL] + list(assumptions), **kw)
 
